@@ -19,8 +19,16 @@ func genC02() *rapid.Generator[SeqCase] {
 		names := rapid.SliceOfNDistinct(rapid.SampledFrom(pool), 1, 4, func(s string) string { return s }).Draw(t, "names")
 		names = gcs.ConflictFree(names)
 		buckets := gcs.BucketPool[:rapid.IntRange(1, 2).Draw(t, "nbuckets")]
+		prefixes := gcs.PrefixNames(names)
 		step := rapid.Custom(func(t *rapid.T) gcs.Op {
-			switch k := rapid.IntRange(0, 19).Draw(t, "kind"); {
+			switch k := rapid.IntRange(0, 21).Draw(t, "kind"); {
+			case k >= 20:
+				if len(prefixes) == 0 {
+					return gcs.Op{K: "getmeta", Bucket: rapid.SampledFrom(buckets).Draw(t, "bucket"), Name: rapid.SampledFrom(names).Draw(t, "name")}
+				}
+				// a request on a directory of the file store (a name that is no object): must leave every object alone
+				return gcs.Op{K: "probe", Bucket: rapid.SampledFrom(buckets).Draw(t, "bucket"), Name: rapid.SampledFrom(prefixes).Draw(t, "name"),
+					Form: rapid.SampledFrom([]string{"delete", "delete", "meta", "media", "patch"}).Draw(t, "form")}
 			case k < 11:
 				return gcs.GenUpload(buckets, names, vt.Thorough()).Draw(t, "upload")
 			case k < 14:
@@ -49,6 +57,6 @@ func runC02(c SeqCase, ev *vt.Ev) *vt.Failure {
 
 func TestC02(t *testing.T) {
 	vt.Prop[SeqCase]{ID: "C02", Test: "TestC02",
-		Rule: "rapid-generated request programs (1-25 steps) on the memory and file stores: uploads by media / multipart / resumable (drawn chunkings: next-k, re-sent and partially overlapping ranges, status queries, zero-byte finalisation, PUT/POST, X-Guploader-No-308, gzip request bodies, declared MD5 ok/wrong/not-base64, content types), overwrites, deletes, downloads through the JSON, /download and public URL forms over hostile object names; after EVERY step every object, deleted name and listing is compared with a byte/metadata model; non-trivial = a resumable upload of >=4 requests with a re-sent range or status query, or >=2 writes with an overwrite/delete while other objects exist",
+		Rule: "rapid-generated request programs (1-25 steps) on the memory and file stores: uploads by media / multipart / resumable (drawn chunkings: next-k, re-sent and partially overlapping ranges, status queries, zero-byte finalisation, PUT/POST, X-Guploader-No-308, gzip request bodies, declared MD5 ok/wrong/not-base64, content types), overwrites, deletes, downloads through the JSON, /download and public URL forms over hostile object names, plus DELETE/GET/PATCH requests on '/'-prefixes of object names (directories of the file store, never objects); after EVERY step every object, deleted name and listing is compared with a byte/metadata model; non-trivial = a resumable upload of >=4 requests with a re-sent range or status query, or >=2 writes with an overwrite/delete while other objects exist",
 		Gen:  genC02(), Run: runC02}.Main(t)
 }
